@@ -143,9 +143,12 @@ class SimFS:
 
     def snapshot(self):
         """path -> bytes | None (directory), for state digests"""
+        # evo.log (optional global log file) carries source line numbers and
+        # belongs to no property: it is left out of state digests
         return {
             k: (bytes(v.data) if v.kind == "f" else None)
             for k, v in sorted(self.ents.items())
+            if not k.endswith("/evo.log")
         }
 
     # -- operations (POSIX semantics)
